@@ -233,13 +233,19 @@ def unparse_Constant(node: Constant, qm: typing.Literal["'", '"']) -> unparse_ge
     yield
 
 
-def _unparse_JoinedStr(node: JoinedStr, qm: typing.Literal["'", '"']) -> unparse_gen_t:
+def _unparse_JoinedStr(
+    node: JoinedStr, qm: typing.Literal["'", '"'], split: str = ""
+) -> unparse_gen_t:
     contents = []
     for v in node.values:
         if isinstance(v, Constant):
             assert isinstance(v.value, str)
             s = get_unescaped_str(v.value, qm)
             s = s.replace("{", "{{").replace("}", "}}")
+            if split and s[:1] == "}" and contents and contents[-1][-2:] == "}}":
+                # f'{x:{w}}}}' would make the "}}" a part of the format spec:
+                # close the literal and continue in an adjacent one
+                contents.append(split)
             contents.append(s)
         elif isinstance(v, FormattedValue):
             contents.append((yield PREC_FORMAT_EXPR_SLOT, v))
@@ -247,7 +253,7 @@ def _unparse_JoinedStr(node: JoinedStr, qm: typing.Literal["'", '"']) -> unparse
 
 
 def unparse_JoinedStr(node: JoinedStr, qm: typing.Literal["'", '"']) -> unparse_gen_t:
-    contents = yield from _unparse_JoinedStr(node, qm)
+    contents = yield from _unparse_JoinedStr(node, qm, split=f"{qm} f{qm}")
     if sys.version_info < (3, 12) and "\\" in contents:  # pragma: no cover
         raise SyntaxError("Back slash is included in a f-string")
     return f"f{qm}{contents}{qm}"
